@@ -201,6 +201,7 @@ type Interp struct {
 	callDepth   int
 	stats       struct{ instrs, forks, merges, calls, states int }
 	funcsSeen   map[string]bool
+	blocksSeen  map[*ssa.BasicBlock]bool
 	contracts   map[string]bool // function names replaced by contract (spec) calls
 	frozen      bool
 	solverFeas  func(*Term) string
@@ -221,7 +222,7 @@ type Interp struct {
 func newInterp(prog *ssa.Program) *Interp {
 	return &Interp{prog: prog, pdom: map[*ssa.Function]map[*ssa.BasicBlock]*ssa.BasicBlock{}, joins: map[*ssa.Function]map[*ssa.BasicBlock]*ssa.BasicBlock{},
 		globals: map[*ssa.Global]*Object{}, globalHeap: map[*Object]Value{}, unwind: 80,
-		funcsSeen: map[string]bool{}, inputByName: map[string]*inputRec{}, contracts: map[string]bool{}, forkFuncs: map[string]bool{}, forkIn: map[string]bool{}, facts: map[int]bool{}}
+		funcsSeen: map[string]bool{}, blocksSeen: map[*ssa.BasicBlock]bool{}, inputByName: map[string]*inputRec{}, contracts: map[string]bool{}, forkFuncs: map[string]bool{}, forkIn: map[string]bool{}, facts: map[int]bool{}}
 }
 
 // checkBudget aborts a job whose symbolic execution outgrows its budget (a mutated tree can make a bounded
@@ -609,6 +610,9 @@ func (fr *Frame) run(st *State, b *ssa.BasicBlock, stops []*ssa.BasicBlock) outc
 		}
 		if debugTrace && strings.HasPrefix(fr.fn.Name(), "H_") {
 			fmt.Fprintf(os.Stderr, "[%s] block %d stops=%d pc=%d\n", fr.fn.Name(), b.Index, len(stops), st.pc.id)
+		}
+		if in.blocksSeen != nil && st.pc != tFalse {
+			in.blocksSeen[b] = true
 		}
 		alive := fr.execBlockBody(st, b)
 		if !alive {
